@@ -193,15 +193,37 @@ def run(prop, tier, seed, replay=None):
     t_models = time.time() - t0
 
     # replay on the real node: one driver run per mode (own node each), the three modes at the same time
-    def drive(mode):
-        inp = dict(mode=mode, scripts=scripts[mode])
+    def shard(mode, part, timeout):
+        """One driver process = one node. A node that does not come up (its free ports were taken by a node of another
+        check started at the same moment) is started again; scripts that ended with an error are run once more."""
+        inp = dict(mode=mode, scripts=part)
         if corrupt:
             inp["corrupt"] = corrupt
-        if mode == "grant":
-            return vlib.run_driver_parallel(binary, inp, shards=(2 if quick else 4), timeout=(200 if quick else 560))
-        if mode == "vp":
-            return vlib.run_driver_parallel(binary, inp, shards=(2 if quick else 4), timeout=(200 if quick else 560))
-        return vlib.run_driver(binary, inp, timeout=(200 if quick else 560))
+        last = None
+        for attempt in range(3):
+            try:
+                res = vlib.run_driver(binary, inp, timeout=timeout)
+                break
+            except Inconclusive as ex:
+                last = ex
+                if "0 results written" not in str(ex):
+                    raise
+                time.sleep(2 + attempt * 3)
+        else:
+            raise last
+        bad = {r["id"] for r in res if r.get("error")}
+        if bad and len(bad) <= 20:
+            again = vlib.run_driver(binary, dict(inp, scripts=[x for x in part if x["id"] in bad]), timeout=timeout)
+            res = [r for r in res if r["id"] not in bad] + again
+        return res
+
+    def drive(mode):
+        n = 1 if mode == "sess" else (2 if quick else 3)
+        items = scripts[mode]
+        parts = [items[i::n] for i in range(n)]
+        with ThreadPoolExecutor(max_workers=n) as ex2:
+            outs = list(ex2.map(lambda p: shard(mode, p, 200 if quick else 560), parts))
+        return [r for o in outs for r in o]
     with ThreadPoolExecutor(max_workers=3) as ex:
         results = dict(zip(MODES, ex.map(drive, MODES)))
     t_driver = time.time() - t0 - t_models
@@ -236,6 +258,8 @@ def run(prop, tier, seed, replay=None):
     if sum(len(scripts[m]) for m in MODES) != total:
         rep.inconclusive.append("driver returned %d results for %d scripts" % (total, sum(len(scripts[m]) for m in MODES)))
     if ninc <= max(1, total // 100) and not any("returned" in x for x in rep.inconclusive):
+        for x in rep.inconclusive[:3]:
+            rep.notes.append("NOTE: tolerated " + x[:300])
         rep.inconclusive = []
     drifts = [x for m in MODES for r in results[m] for x in (r.get("drift") or [])]
     for d in drifts[:6]:
